@@ -6,11 +6,8 @@ use regex::{Regex, RegexSet, RegexBuilder, RegexSetBuilder};
 //%item value.rs trait_Object pub trait Object \{
 //%item parser.rs impl_PartialEq_Search impl PartialEq for Search
 
-pub type Result<T> = std::result::Result<T, Error>;
-
 verus! {
 
-//%include prelude/errors.rs
 //%include prelude/externals_re.rs
 //%include prelude/externals_val.rs
 //%include prelude/stdspecs.rs
@@ -24,8 +21,6 @@ verus! {
 //%item parser.rs Expression pub enum Expression
 //%item value.rs Value pub enum Value
 //%item solver.rs SolverResult pub\(crate\) enum SolverResult
-//%item identifier.rs Pattern pub enum Pattern
-//%item identifier.rs Identifier pub struct Identifier
 
 //%include spec/model.rs
 //%include prelude/iters.rs
@@ -35,12 +30,11 @@ verus! {
 //%include prelude/vecspecs.rs
 //%include spec/lemmas_sems.rs
 
-//%include spec/batch.rs
-//%include prelude/batchspecs.rs
+//%include prelude/rwspecs.rs
+//%include spec/rewrite.rs
 
-//%slice parser.rs batch fn parse_mapping ;; let mut multiple = false; ;; group.extend(rest); ;; fn batch(starts_with: Vec<Identifier>, contains: Vec<Identifier>, ends_with: Vec<Identifier>, exact: Vec<Identifier>, regex: Vec<Identifier>, rest: Vec<Expression>, f: String, cast: bool) -> (Vec<Expression>, bool) ;; (group, multiple)
-
-//%slice parser.rs seqtail fn parse_mapping ;; if let Expression::Match(Match::All, _) | Expression::Match(Match::Of(_), _) = &e { ;; Expression::BooleanGroup(BoolSym::Or, group) +1 ;; fn seqtail(e: Expression, misc: Option<ModSym>, group: Vec<Expression>, multiple: bool, boolean: bool, mapping: bool, number: bool, string: bool) -> crate::Result<Expression> ;; Ok(@)
+//%item optimiser.rs rewrite_search fn rewrite_search
+//%item optimiser.rs rewrite pub fn rewrite
 
 } // verus!
 fn main() {}
